@@ -37,8 +37,9 @@ def lifecycle_run(ctx, corr, freq):
     rnd = random.Random(ctx.rnd.random())
     ndays = rnd.randrange(6, 30) if freq == "1d" else rnd.randrange(3, 7)
     warm = rnd.randrange(0, 4)
+    # daily runs: a universe member may be delisted inside the run (the universe drops it during AFTER_TRADING of that day)
     S = B.gen_market(rnd, ndays=ndays, warm=warm, n_stocks=2, with_future=False,
-                     opts={"kinds": ["CS"], "p_delist": 0, "p_split": 0, "p_div": 0, "p_sus": 0})
+                     opts={"kinds": ["CS"], "p_delist": 0.5 if freq == "1d" else 0, "p_split": 0, "p_div": 0, "p_sus": 0})
     cal = S["cal"]
     # configured range: may start/end on non-trading days, before/after the data
     r = rnd.random()
@@ -65,7 +66,8 @@ def lifecycle_run(ctx, corr, freq):
     changes = []      # (kind, absmin) of source events during which the universe changed
     defined = {name: rnd.random() < 0.7 for name in ("before_trading", "open_auction", "handle_bar", "after_trading")}
     p_change = rnd.choice([0, 0.02, 0.1]) if freq == "1m" else rnd.choice([0, 0.3])
-    uni = {"cur": 0}
+    uni = {"cur": 0, "scripted": False}
+    whole_universe_first = freq == "1d" and rnd.random() < 0.7
 
     def maybe_change(kind):
         from rqalpha.api import update_universe
@@ -73,7 +75,9 @@ def lifecycle_run(ctx, corr, freq):
         special = freq == "1m" and kind == "BAR" and (env.calendar_dt.hour * 60 + env.calendar_dt.minute) in (571, 900, 690, 781) and rnd.random() < 0.3
         if rnd.random() < p_change or special:
             uni["cur"] += 1
+            uni["scripted"] = True
             update_universe([ids[uni["cur"] % 2]] if uni["cur"] % 3 else ids)
+            uni["scripted"] = False
             changes.append((kind, absmin(env.calendar_dt)))
 
     def init(context):
@@ -85,6 +89,15 @@ def lifecycle_run(ctx, corr, freq):
                     published.append((name, env.calendar_dt, env.trading_dt))
                 return h
             subscribe_event(getattr(EVENT, name), mk(name))
+
+        def on_universe(context, event):
+            if not uni["scripted"] and ExecutionContext.phase().name != "ON_INIT":        # the system dropped a delisted member
+                changes.append(("AT", absmin(env.calendar_dt)))
+                ctx.stats["delisted_universe_member_dropped"] += 1
+        subscribe_event(EVENT.POST_UNIVERSE_CHANGED, on_universe)
+        if whole_universe_first:
+            from rqalpha.api import update_universe
+            update_universe(ids)
 
     def mk_cb(name, kind):
         def f(context, bar_dict=None):
@@ -253,6 +266,10 @@ def phase_table_run(ctx, corr):
         if k[1] in ("ON_INIT", "BEFORE_TRADING", "AFTER_TRADING") and impl != "0":
             ctx.witness("C08.5", {"kind": "order_api_not_refused", "api": k[0], "phase": k[1]},
                         "%s(...) called in %s (phase %s) was not refused" % (k[0], k[2], k[1]), {"api": k[0], "phase": k[1], "where": k[2]})
+        # the place decides, whatever phase label the run carried there: a function scheduled for before_trading is before-trading code
+        if k[2] in ("init", "before_trading", "after_trading", "scheduled before_trading function") and impl != "0" and k[1] not in ("ON_INIT", "BEFORE_TRADING", "AFTER_TRADING"):
+            ctx.witness("C08.5", {"kind": "order_api_not_refused", "api": k[0], "where": k[2]},
+                        "%s(...) called in %s was not refused (the run labelled that code phase %s)" % (k[0], k[2], k[1]), {"api": k[0], "phase": k[1], "where": k[2]})
         if k[1] in ("OPEN_AUCTION", "ON_BAR", "SCHEDULED") and impl == "0":
             ctx.witness("C08.5", {"kind": "order_api_refused_while_trading", "api": k[0], "phase": k[1]},
                         "%s(...) was refused in %s" % (k[0], k[2]), {"api": k[0], "phase": k[1]})
